@@ -231,7 +231,7 @@ func specIsHelperName(name string) bool {
 //@   ensures[C08,FINDING] escapes-dq-specials: result == specDQEscape(value)
 //
 //@ func (*converter).ProgramStart
-//@   ensures[C16] shebang: appended(c.startCode, old(c.startCode), "#!" + c.interpreter) && result == nil
+//@   ensures[C16,C18] shebang: appended(c.startCode, old(c.startCode), "#!" + c.interpreter) && result == nil
 //@   ensures[C16] frame: sameExcept(c, old(c), "startCode")
 //
 //@ func (*converter).ProgramEnd
@@ -302,8 +302,8 @@ func specIsHelperName(name string) bool {
 //
 //@ func (*converter).ForStart
 //@   requires[C01] open-flags-allocated: forall(k, 0, len(c.fors), c.fors[k] < c.forCounter)
-//@   ensures[C01,C10] fresh-flag: appended(c.fors, old(c.fors), old(c.forCounter)) && c.forCounter == old(c.forCounter) + 1
-//@   ensures[C01] flag-not-shared-with-open-loop: forall(k, 0, len(old(c.fors)), old(c.fors)[k] != c.fors[len(c.fors) - 1])
+//@   ensures[C01,C10,C04] fresh-flag: appended(c.fors, old(c.fors), old(c.forCounter)) && c.forCounter == old(c.forCounter) + 1
+//@   ensures[C01,C04] flag-not-shared-with-open-loop: forall(k, 0, len(old(c.fors)), old(c.fors)[k] != c.fors[len(c.fors) - 1])
 //@   ensures[C01] invariant-kept: forall(k, 0, len(c.fors), c.fors[k] < c.forCounter)
 //@   ensures[C01,C16] lines: appended(c.code, old(c.code), "_fv" + itoa(old(c.forCounter)) + "=", "while true; do") && result == nil
 //@   ensures[C01] frame: sameExcept(c, old(c), "code", "fors", "forCounter")
@@ -368,8 +368,8 @@ func specIsHelperName(name string) bool {
 //@   ensures[C01,C06] error-iff-not-allowed: (err != nil) == !(specArith(valueType, operator) || specConcat(valueType, operator))
 //@   ensures[C01] nothing-emitted-on-error: err != nil ==> c.code == old(c.code) && result == ""
 //@   ensures[C01] arithmetic-line: err == nil && specArith(valueType, operator) ==> appended(c.code, old(c.code), specAssign(specName(len(c.funcs) > 0, c.funcCounter, specHelperName(old(c.varCounter)), false), "$((" + left + operator + right + "))"))
-//@   ensures[C01,C08] concat-line: err == nil && specConcat(valueType, operator) ==> appended(c.code, old(c.code), specAssign(specName(len(c.funcs) > 0, c.funcCounter, specHelperName(old(c.varCounter)), false), "\"" + left + right + "\""))
-//@   ensures[C01,C10] result-is-the-fresh-helper: err == nil ==> result == specRef(specName(len(c.funcs) > 0, c.funcCounter, specHelperName(old(c.varCounter)), false))
+//@   ensures[C01,C08,C18] concat-line: err == nil && specConcat(valueType, operator) ==> appended(c.code, old(c.code), specAssign(specName(len(c.funcs) > 0, c.funcCounter, specHelperName(old(c.varCounter)), false), "\"" + left + right + "\""))
+//@   ensures[C01,C10,C18] result-is-the-fresh-helper: err == nil ==> result == specRef(specName(len(c.funcs) > 0, c.funcCounter, specHelperName(old(c.varCounter)), false))
 //@   ensures[C01] counter: c.varCounter == old(c.varCounter) + 1 && sameExcept(c, old(c), "code", "varCounter")
 //
 //@ func (*converter).Comparison
@@ -498,3 +498,9 @@ func specCommand(name string, n int, words string) string {
 func funcInfoOf(name string) funcInfo {
 	return funcInfo{name: name}
 }
+
+// The script is exactly the emitted lines: helper routines first, then the program, each line
+// followed by a line break -- nothing is rewritten on the way out.
+//@ func (*converter).Dump
+//@   ensures[C01,C08,C16] the-script-is-the-emitted-lines-joined-by-line-breaks: err == nil && calls(strings_Join) == 1 && result0 == res(strings_Join, 0, 0) && arg(strings_Join, 0, 1) == "\n" && len(arg(strings_Join, 0, 0)) == len(c.startCode) + len(c.code) + 1 && forall(k, 0, len(c.startCode), arg(strings_Join, 0, 0)[k] == c.startCode[k]) && forall(k, 0, len(c.code), arg(strings_Join, 0, 0)[len(c.startCode) + k] == c.code[k]) && arg(strings_Join, 0, 0)[len(c.startCode) + len(c.code)] == ""
+//@   ensures[C14] dumping-changes-nothing: sameExcept(c, old(c))
